@@ -51,7 +51,8 @@ PROPS = {
         title="reported workflow status is truthful",
         theorems={STATUS: ["tbl_dormant_doors_task", "tbl_dormant_doors_wf", "tbl_active_doors_wf",
                            "tbl_succeeded_doors_task", "tbl_failure_covered", "tbl_failure_canceling",
-                           "tbl_failed_request_total", "C10_never_succeeds", "tbl_leave_active_total"]},
+                           "tbl_failed_request_total", "C10_never_succeeds", "tbl_leave_active_total",
+                           "C02_success_door", "C02_dormant_door"]},
         keys=["status", "sequence", "staged"], offers="ids",
         prof=dict(p_badexpr=0.4, bad_where=["publish", "when", "publish", "retry_when", "input"], max_tasks=4), hist=dict(p_pause=0.15, p_cancel=0.08, p_task_pause=0.25, p_lifecycle=0.3, p_early_resume=0.3, p_first_pending=0.1, p_item_pause=0.06),
         monitor="C02", unproven=["state invariant paused|canceled => no active record is proved only at the doors (table level), not as a history invariant"],
